@@ -18,39 +18,6 @@ open CL.Syn CL.Compose CL.C01disc
 
 /-! ## runs of groups -/
 
-theorem no_finish_inside {toks : List Tok} {g' s g : Nat} (hgs : g' < s)
-    (hsf : s < groupsEnd toks g') (hsg : s < g)
-    (hnp : ∀ j, s ≤ j → j < g → ∃ t, toks[j]? = some t ∧ isOpen t = false ∧ isClose t = false)
-    (hlt : groupsEnd toks g < toks.length) : groupsEnd toks g < groupsEnd toks g' := by
-  have key : ∀ j, s ≤ j → j < g →
-      ∃ d, 1 ≤ d ∧ groupsEnd toks g' = j + 1 + groupsLen (toks.drop (j + 1)) d := by
-    intro j hj
-    induction j, hj using Nat.le_induction with
-    | base =>
-      intro hsg'
-      have hk : s - g' < groupsLen (toks.drop g') 0 := by unfold groupsEnd at hsf; omega
-      obtain ⟨t, d', ht, hsplit, hd'⟩ := groupsLen_split _ 0 _ hk
-      rw [List.getElem?_drop, show g' + (s - g') = s by omega] at ht
-      rw [List.drop_drop, show g' + (s - g' + 1) = s + 1 by omega] at hsplit
-      obtain ⟨t', ht', _, hc⟩ := hnp s (Nat.le_refl _) hsg'
-      rw [ht] at ht'; cases ht'
-      exact ⟨d', hd' hc, by unfold groupsEnd; omega⟩
-    | succ j hj ih =>
-      intro hlt'
-      obtain ⟨d, hd, he⟩ := ih (by omega)
-      obtain ⟨t, ht, ho, hc⟩ := hnp (j + 1) (by omega) hlt'
-      obtain ⟨d0, rfl⟩ : ∃ d0, d = d0 + 1 := ⟨d - 1, by omega⟩
-      rw [drop_eq_cons ht, groupsLen_other _ _ ho hc] at he
-      exact ⟨d0 + 1, hd, by omega⟩
-  obtain ⟨d, hd, he⟩ := key (g - 1) (by omega) (by omega)
-  rw [show g - 1 + 1 = g by omega] at he
-  have hlen : groupsLen (toks.drop g) 0 < (toks.drop g).length := by
-    unfold groupsEnd at hlt
-    simp only [List.length_drop]; omega
-  have := groupsLen_lt_of_lt (toks.drop g) (d := 0) (d' := d) (by omega) hlen
-  unfold groupsEnd at he ⊢
-  omega
-
 /-! ## `assignOpen` in context -/
 
 /-- the list is empty, or its first token is not `(`, not the operator `=` and not the keyword
@@ -175,11 +142,6 @@ theorem arrowHeaderOK_cases {h : List Tok} {k : Nat} (hh : arrowHeaderOK h k = t
 
 /-! ## matches of the arrow pattern -/
 
-theorem arrowHeader_finish_unique {toks : List Tok} {p f f' : Nat} (h : ArrowHeader toks p f)
-    (h' : ArrowHeader toks p f') : f = f' :=
-  Compose.greedy_finish_unique (dfaMachine_deadStuck aDfa tokAcceptor) (greedy_of_arrowHeader h)
-    (greedy_of_arrowHeader h')
-
 theorem isKw_iff {t : Tok} {s : Str} : t.isKw s = true ↔ (t.isKeyword && t.val == s) = true := by
   rfl
 
@@ -221,20 +183,6 @@ theorem arrowStart_of_arrowHeader {toks : List Tok} {p f : Nat} (h : ArrowHeader
   · have hdu : toks.drop (n + 1 + 1) = u :: toks.drop (n + 3) := drop_eq_cons hu
     have huk' : u.isKw kwAsyncS = true := huk
     simp [arrowStart, arrowAfterAssign, heq, hdu, hbody, huk']
-
-/-- the follow-up `=>` `{` of the arrow pattern -/
-theorem followsAt_arrow_of {toks : List Tok} {f : Nat} {a b : Tok} {r : List Tok}
-    (hd : toks.drop f = a :: b :: r) (ha : a.isSymbol [61, 62] = true)
-    (hb : b.isSymbol [123] = true) : FollowsAt (some aFollow) toks f := by
-  refine ⟨aFDfa, 2, compile_aFollow, ?_⟩
-  rw [hd]
-  have hacc2 : (dfaMachine aFDfa tokAcceptor (β := Tok)).acc (.set [2], []) = false := afacc_2
-  have hacc3 : (dfaMachine aFDfa tokAcceptor (β := Tok)).acc (.set [3], []) = true := by decide
-  simp only [startsWithM]
-  rw [show (dfaMachine aFDfa tokAcceptor (β := Tok)).init = (.start, []) from rfl, afstep_start, ha]
-  simp only [if_true, hacc2, Bool.false_eq_true, if_false]
-  rw [afstep_2, hb]
-  simp only [if_true, hacc3]
 
 /-! ## a canonical arrow header in its context -/
 
@@ -482,35 +430,5 @@ theorem arrow_in_context {pre h post : List Tok} {k : Nat} {a b : Tok}
       cases hao
 
 /-! ## through `get_headers` -/
-
-/-- a match of the arrow pattern that passes the follow-up test and is not pre-empted by another
-match of the pattern is returned by `get_headers` -/
-theorem arrow_reported {L : Language} (hL : L ∈ Gen.all.map (·.2))
-    (hhp : (⟨aExpr, some aFollow⟩ : HeaderPat) ∈ L.pats) {toks : List Tok} {hs : List Header}
-    (h : getHeaders ⟨aExpr, some aFollow⟩ toks = .ok hs) {p f : Nat} {nm : Tok}
-    (harr : ArrowHeader toks p f) (hfo : FollowsAt (some aFollow) toks f)
-    (hname : firstName (slice toks p f) = .ok nm)
-    (hbefore : ∀ q f', q < p → ArrowHeader toks q f' → ¬ (p < f' ∧ f' ≤ f))
-    (hafter : ∀ q f', p < q → ArrowHeader toks q f' → ¬ f' < f) :
-    (⟨nm, ⟨p, f⟩⟩ : Header) ∈ hs := by
-  obtain ⟨D, ms, hD, hms, hiff⟩ := getHeaders_found_iff L hL _ hhp toks hs h
-  obtain ⟨hnn, hds⟩ := shipped_machine L hL _ hhp D hD
-  have hDa : D = aDfa := by
-    have h1 : compileTok aExpr = .ok D := hD
-    rw [compile_aExpr] at h1; cases h1; rfl
-  subst hDa
-  have hnp : ¬ ∃ m ∈ ms, (m.s < p ∧ p < m.e ∧ m.e ≤ f) ∨ (p < m.s ∧ m.e < f) := by
-    rintro ⟨m, hm, hcase⟩
-    have hgm := arrowHeader_of_greedy (C14.greedy hnn hds hms m hm)
-    rcases hcase with ⟨h1, h2, h3⟩ | ⟨h1, h2⟩
-    · exact hbefore m.s m.e h1 hgm ⟨h2, h3⟩
-    · exact hafter m.s m.e h1 hgm h2
-  obtain ⟨hd, hhd, hr, hn⟩ := (hiff p f).2 ⟨greedy_of_arrowHeader harr, hnp, hfo⟩
-  rw [hname] at hn
-  cases hd with
-  | mk nm' rng =>
-    simp only at hr hn
-    cases hr; cases hn
-    exact hhd
 
 end CL
